@@ -169,11 +169,11 @@ func encodings(v *big.Int, all bool) [][]byte {
 func lenClass(n int) string {
 	switch {
 	case n < 32:
-		return "len<32"
+		return "lt32"
 	case n == 32:
-		return "len=32"
+		return "eq32"
 	default:
-		return "len>32"
+		return "gt32"
 	}
 }
 
